@@ -198,7 +198,7 @@ def make_structure(rng, with_tempbox):
   opts = gen.Opts(max_nodes=rng.choice([4, 8, 12]), max_depth=rng.choice([3, 4, 5]),
                   p_share=rng.choice([0.15, 0.3, 0.45]), p_clone=0.1, fns=FNS, lattice=0.1,
                   leaves=LEAVES, containers=containers, p_container=0.5, p_leaf=0.3,
-                  dict_keys=['k', 'j', 3, (1, 'a'), None, 0, 'a b'], uid=False)
+                  dict_keys=['k', 'j', 3, (1, 'a'), None, 0, 'a b'], uid=False, allow_gaps=True)
   g = gen.DagGen(rng, opts)
   kind = rng.choice(['buildable', 'list', 'dict', 'tuple'])
   if kind == 'buildable':
